@@ -1,11 +1,31 @@
 package main
 
 // Stream `types` (C14, C09): FIX value types.
+//
+// Ops (input -> observation):
+//   (int-read  bytes)            -> (ok v rewrite) | err          rewrite = Write of the value read
+//   (int-write n)                -> (text reread)                 reread  = Read of the text written
+//   (bool-read bytes) / (bool-write b)                            same shapes
+//   (ts-read   bytes)            -> (ok sec nsec prec rewrite) | err
+//   (ts-write  sec nsec prec)    -> (text reread)
+//   (float-read bytes)           -> ok | err                      float values are never reported
+//   (float-write neg digits dp)  -> (text T|F)                    v = 0.digits * 10^dp (shortest digits); T: Read(Write(v)) == v
+//   (float-canon bytes)          -> T | F | err                   Write(Read(s)) == s
+//   (str-rt bytes) (bytes-rt bytes) -> (ok read write)
+//   (dec-read  bytes scale)      -> (ok coef exp text reread) | (ok coef exp) when |exp| > 1000 | err
+//   (dec-write coef exp scale)   -> (text reread)
+//   (udec-read bytes scale)      -> (ok string prec text rereadstring) | err
 
 import (
+	"bytes"
 	"math"
+	"math/big"
+	"strconv"
+	"strings"
+	"time"
 
 	"github.com/quickfixgo/quickfix"
+	"github.com/shopspring/decimal"
 
 	. "qfverif/hx"
 )
@@ -14,6 +34,48 @@ func main() { Main() }
 
 func init() {
 	Register("types", &Stream{Gen: genTypes, Run: runTypes})
+}
+
+func bigAtom(x Sx) *big.Int {
+	n, ok := new(big.Int).SetString(AtomSym(x), 10)
+	if !ok {
+		panic("bad integer atom")
+	}
+	return n
+}
+
+func tsObs(f quickfix.FIXUTCTimestamp, rest ...Sx) Sx {
+	l := List{Sym("ok"), Int64(f.Time.Unix()), Int(f.Time.Nanosecond()), Int(int(f.Precision))}
+	return append(l, rest...)
+}
+
+func decObs(d decimal.Decimal, rest ...Sx) Sx {
+	l := List{Sym("ok"), Sym(d.Coefficient().String()), Int(int(d.Exponent()))}
+	return append(l, rest...)
+}
+
+func decWritePart(d decimal.Decimal, scale int32) []Sx {
+	w := quickfix.FIXDecimal{Decimal: d, Scale: scale}.Write()
+	var r quickfix.FIXDecimal
+	if err := r.Read(w); err != nil {
+		return []Sx{Bytes(w), ErrV()}
+	}
+	return []Sx{Bytes(w), decObs(r.Decimal)}
+}
+
+func floatOfDigits(neg bool, digs []byte, dp int) float64 {
+	s := "0." + string(digs) + "e" + strconv.Itoa(dp)
+	if len(digs) == 0 {
+		s = "0"
+	}
+	if neg {
+		s = "-" + s
+	}
+	v, err := strconv.ParseFloat(s, 64)
+	if err != nil {
+		panic(err)
+	}
+	return v
 }
 
 func runTypes(in Sx) Sx {
@@ -26,11 +88,18 @@ func runTypes(in Sx) Sx {
 			if err := v.Read(b); err != nil {
 				return ErrV()
 			}
-			return OkV(Int(int(v)))
+			return L(Sym("ok"), Int(int(v)), Bytes(v.Write()))
 		})
 	case "int-write":
 		n := AtomInt64(l[1])
-		return Guard(func() Sx { return Bytes(quickfix.FIXInt(n).Write()) })
+		return Guard(func() Sx {
+			w := quickfix.FIXInt(n).Write()
+			var v quickfix.FIXInt
+			if err := v.Read(w); err != nil {
+				return L(Bytes(w), ErrV())
+			}
+			return L(Bytes(w), OkV(Int(int(v))))
+		})
 	case "bool-read":
 		b := AtomBytes(l[1])
 		return Guard(func() Sx {
@@ -38,10 +107,118 @@ func runTypes(in Sx) Sx {
 			if err := v.Read(b); err != nil {
 				return ErrV()
 			}
-			return OkV(Bool(bool(v)))
+			return L(Sym("ok"), Bool(bool(v)), Bytes(v.Write()))
 		})
 	case "bool-write":
-		return Guard(func() Sx { return Bytes(quickfix.FIXBoolean(AtomBool(l[1])).Write()) })
+		return Guard(func() Sx {
+			w := quickfix.FIXBoolean(AtomBool(l[1])).Write()
+			var v quickfix.FIXBoolean
+			if err := v.Read(w); err != nil {
+				return L(Bytes(w), ErrV())
+			}
+			return L(Bytes(w), OkV(Bool(bool(v))))
+		})
+	case "ts-read":
+		b := AtomBytes(l[1])
+		return Guard(func() Sx {
+			var f quickfix.FIXUTCTimestamp
+			if err := f.Read(b); err != nil {
+				return ErrV()
+			}
+			return tsObs(f, Bytes(f.Write()))
+		})
+	case "ts-write":
+		sec, ns, p := AtomInt64(l[1]), AtomInt64(l[2]), AtomInt(l[3])
+		return Guard(func() Sx {
+			f := quickfix.FIXUTCTimestamp{Time: time.Unix(sec, ns), Precision: quickfix.TimestampPrecision(p)}
+			w := f.Write()
+			var r quickfix.FIXUTCTimestamp
+			if err := r.Read(w); err != nil {
+				return L(Bytes(w), ErrV())
+			}
+			return L(Bytes(w), tsObs(r))
+		})
+	case "float-read":
+		b := AtomBytes(l[1])
+		return Guard(func() Sx {
+			var v quickfix.FIXFloat
+			if err := v.Read(b); err != nil {
+				return ErrV()
+			}
+			return Sym("ok")
+		})
+	case "float-write":
+		neg, digs, dp := AtomBool(l[1]), AtomBytes(l[2]), AtomInt(l[3])
+		return Guard(func() Sx {
+			v := floatOfDigits(neg, digs, dp)
+			w := quickfix.FIXFloat(v).Write()
+			var r quickfix.FIXFloat
+			same := false
+			if err := r.Read(w); err == nil {
+				same = math.Float64bits(float64(r)) == math.Float64bits(v)
+			}
+			return L(Bytes(w), Bool(same))
+		})
+	case "float-canon":
+		b := AtomBytes(l[1])
+		return Guard(func() Sx {
+			var v quickfix.FIXFloat
+			if err := v.Read(b); err != nil {
+				return ErrV()
+			}
+			return Bool(bytes.Equal(v.Write(), b))
+		})
+	case "str-rt":
+		b := AtomBytes(l[1])
+		return Guard(func() Sx {
+			var v quickfix.FIXString
+			if err := v.Read(b); err != nil {
+				return ErrV()
+			}
+			return L(Sym("ok"), Str(string(v)), Bytes(v.Write()))
+		})
+	case "bytes-rt":
+		b := AtomBytes(l[1])
+		return Guard(func() Sx {
+			var v quickfix.FIXBytes
+			if err := v.Read(b); err != nil {
+				return ErrV()
+			}
+			return L(Sym("ok"), Bytes([]byte(v)), Bytes(v.Write()))
+		})
+	case "dec-read":
+		b, scale := AtomBytes(l[1]), AtomInt(l[2])
+		return Guard(func() Sx {
+			var v quickfix.FIXDecimal
+			if err := v.Read(b); err != nil {
+				return ErrV()
+			}
+			if e := v.Decimal.Exponent(); e > 1000 || e < -1000 {
+				return decObs(v.Decimal) // Write would compute 10^|e|: not exercised
+			}
+			return decObs(v.Decimal, decWritePart(v.Decimal, int32(scale))...)
+		})
+	case "dec-write":
+		coef, exp, scale := bigAtom(l[1]), AtomInt(l[2]), AtomInt(l[3])
+		return Guard(func() Sx {
+			return L(decWritePart(decimal.NewFromBigInt(coef, int32(exp)), int32(scale))...)
+		})
+	case "udec-read":
+		b, scale := AtomBytes(l[1]), AtomInt(l[2])
+		return Guard(func() Sx {
+			var v quickfix.FIXUDecimal
+			if err := v.Read(b); err != nil {
+				return ErrV()
+			}
+			v.Scale = uint8(scale)
+			w := v.Write()
+			var r quickfix.FIXUDecimal
+			var rr Sx = ErrV()
+			if err := r.Read(w); err == nil {
+				rr = Str(r.Decimal.String())
+			}
+			return L(Sym("ok"), Str(v.Decimal.String()), Int(v.Decimal.Prec()), Bytes(w), rr)
+		})
 	}
 	panic("types: unknown op " + SxString(in))
 }
@@ -61,47 +238,447 @@ func enumStrings(alphabet []byte, maxLen int, f func([]byte)) {
 	rec(nil, maxLen)
 }
 
+const nearMiss = "+-.,eE_x :"
+
+type gen struct {
+	c   *Ctx
+	run func(in Sx)
+}
+
+func (g *gen) thorough() bool { return g.c.Tier == "thorough" }
+func (g *gen) intn(n int) int  { return g.c.Rng.Intn(n) }
+
+func (g *gen) digits(n int) []byte {
+	s := make([]byte, n)
+	for j := range s {
+		s[j] = byte('0' + g.intn(10))
+	}
+	return s
+}
+
 func genTypes(c *Ctx) {
-	run := func(in Sx) { c.Emit(in, runTypes(in)) }
-	// ints: exhaustive short strings over digits + near-miss characters
-	intAlpha := []byte("0159-+. eE_x,")
+	g := &gen{c: c, run: func(in Sx) { c.Emit(in, runTypes(in)) }}
+	g.ints()
+	g.bools()
+	g.timestamps()
+	g.floats()
+	g.strings()
+	g.decimals()
+	g.udecimals()
+}
+
+func (g *gen) ints() {
+	run, c := g.run, g.c
+	// exhaustive short strings over digits + near-miss characters
+	intAlpha := []byte("0159" + nearMiss)
 	maxLen := 3
-	if c.Tier == "thorough" {
+	if g.thorough() {
 		maxLen = 5
 	}
 	enumStrings(intAlpha, maxLen, func(s []byte) { run(L(Sym("int-read"), Bytes(s))) })
 	// boundary integers, as text
 	for _, s := range []string{"9223372036854775807", "9223372036854775808", "-9223372036854775808", "-9223372036854775809",
-		"18446744073709551616", "99999999999999999999999", "000000000000000000000000000001", "-0", "00", "-00012"} {
+		"18446744073709551616", "99999999999999999999999", "000000000000000000000000000001", "-0", "00", "-00012",
+		"999999999999999999", "-999999999999999999", "1000000000000000000", "-1000000000000000000", "0999999999999999999",
+		"-000000000000000000", "0000000000000000000", "-9223372036854775808x", "+9223372036854775807", "-", "--1",
+		"9223372036854775807 ", " 9223372036854775807", "00000000009223372036854775807", "00000000009223372036854775808",
+		"-00000000009223372036854775808", "-00000000009223372036854775809", "1234567890123456789-", "12345678901234567890123-"} {
 		run(L(Sym("int-read"), Str(s)))
 	}
 	for i := 0; i < c.N; i++ {
 		// random digit strings of random length, with an occasional defect
-		n := 1 + c.Rng.Intn(24)
-		s := make([]byte, n)
-		for j := range s {
-			s[j] = byte('0' + c.Rng.Intn(10))
-		}
-		if c.Rng.Intn(3) == 0 {
+		n := 1 + g.intn(24)
+		s := g.digits(n)
+		if g.intn(3) == 0 {
 			s[0] = '-'
 		}
-		if c.Rng.Intn(5) == 0 {
-			s[c.Rng.Intn(n)] = intAlpha[c.Rng.Intn(len(intAlpha))]
+		if g.intn(5) == 0 {
+			s[g.intn(n)] = intAlpha[g.intn(len(intAlpha))]
 		}
 		run(L(Sym("int-read"), Bytes(s)))
 	}
-	for _, v := range []int64{0, 1, -1, 9, 10, -10, 99, 100, math.MaxInt64, math.MinInt64, math.MaxInt64 - 1, math.MinInt64 + 1, 1 << 31, -(1 << 31), 1 << 32} {
+	for i := 0; i < c.N/4; i++ {
+		// texts around the int64 boundary: 19 digits near 2^63
+		v := new(big.Int).Add(new(big.Int).Lsh(big.NewInt(1), 63), big.NewInt(int64(g.intn(41)-20)))
+		s := v.String()
+		if g.intn(2) == 0 {
+			s = "-" + s
+		}
+		run(L(Sym("int-read"), Str(s)))
+	}
+	for _, v := range []int64{0, 1, -1, 9, 10, -10, 99, 100, math.MaxInt64, math.MinInt64, math.MaxInt64 - 1, math.MinInt64 + 1, 1 << 31, -(1 << 31), 1 << 32,
+		999999999999999999, 1000000000000000000, -999999999999999999, -1000000000000000000} {
 		run(L(Sym("int-write"), Int64(v)))
 	}
 	for i := 0; i < c.N; i++ {
-		v := c.Rng.Int63() >> uint(c.Rng.Intn(63))
-		if c.Rng.Intn(2) == 0 {
+		v := c.Rng.Int63() >> uint(g.intn(63))
+		if g.intn(2) == 0 {
 			v = -v
 		}
 		run(L(Sym("int-write"), Int64(v)))
 	}
-	// bools
-	enumStrings([]byte("YNyn01 "), 2, func(s []byte) { run(L(Sym("bool-read"), Bytes(s))) })
-	run(L(Sym("bool-write"), Bool(true)))
-	run(L(Sym("bool-write"), Bool(false)))
+}
+
+func (g *gen) bools() {
+	enumStrings([]byte("YNyn01 TF"), 2, func(s []byte) { g.run(L(Sym("bool-read"), Bytes(s))) })
+	for _, s := range []string{"YES", "NO", "true", "false", "Y\x00", "\x00"} {
+		g.run(L(Sym("bool-read"), Str(s)))
+	}
+	g.run(L(Sym("bool-write"), Bool(true)))
+	g.run(L(Sym("bool-write"), Bool(false)))
+}
+
+var tsSeeds = []string{
+	"20060102-15:04:05.123456789", "00000101-00:00:00.000000000", "99991231-23:59:59.999999999",
+	"20040229-12:30:45.500000000", "19000228-09:09:09.090909090", "20000229-00:59:59.000000001", "20231130-23:00:00.987654321",
+}
+
+var tsLens = []int{17, 21, 24, 27}
+
+func (g *gen) timestamps() {
+	run, c := g.run, g.c
+	rd := func(s []byte) { run(L(Sym("ts-read"), Bytes(s))) }
+	mut := []byte("0123456789" + nearMiss + "Z")
+	// per-position mutation of valid texts of the four lengths: every position, every mutation character
+	nseeds := 2
+	if g.thorough() {
+		nseeds = len(tsSeeds)
+	}
+	for _, seed := range tsSeeds[:nseeds] {
+		for _, n := range tsLens {
+			base := []byte(seed[:n])
+			rd(base)
+			for i := 0; i < n; i++ {
+				for _, m := range mut {
+					s := append([]byte(nil), base...)
+					s[i] = m
+					rd(s)
+				}
+			}
+		}
+	}
+	// pairwise-position mutation: all position pairs, characters drawn from a smaller set (quick) / the full set (thorough)
+	pairMut := []byte("09-+.,: ")
+	if g.thorough() {
+		pairMut = mut
+	}
+	for _, n := range tsLens {
+		base := []byte(tsSeeds[0][:n])
+		for i := 0; i < n; i++ {
+			for j := i + 1; j < n; j++ {
+				for _, a := range pairMut {
+					for _, b := range pairMut {
+						if !g.thorough() && g.intn(4) != 0 && !(i >= 15 || j >= 15) {
+							continue // quick: sample a quarter of the pairs in front of the seconds field
+						}
+						s := append([]byte(nil), base...)
+						s[i], s[j] = a, b
+						rd(s)
+					}
+				}
+			}
+		}
+	}
+	// field ranges: every month/day combination for leap / non-leap / century years, every hour, minute, second value 00..99
+	for _, y := range []string{"2023", "2024", "1900", "2000", "0000", "0001", "0004", "0100", "0400", "9999"} {
+		for mo := 0; mo <= 13; mo++ {
+			for d := 0; d <= 32; d++ {
+				rd([]byte(y + two(mo) + two(d) + "-00:00:00"))
+			}
+		}
+	}
+	for v := 0; v < 100; v++ {
+		rd([]byte("20060102-" + two(v) + ":04:05"))
+		rd([]byte("20060102-15:" + two(v) + ":05.000"))
+		rd([]byte("20060102-15:04:" + two(v) + ".000000"))
+		rd([]byte("20060102-15:04:" + two(v)))
+	}
+	// wrong lengths: drop / insert a character anywhere, truncate, extend
+	for _, n := range tsLens {
+		base := []byte(tsSeeds[0][:n])
+		for i := 0; i <= n; i++ {
+			rd(append(append([]byte(nil), base[:i]...), base[min(i+1, n):]...))
+			for _, m := range []byte("0 .-") {
+				s := append(append(append([]byte(nil), base[:i]...), m), base[i:]...)
+				rd(s)
+			}
+		}
+	}
+	for n := 0; n <= 32; n++ {
+		rd([]byte(("20060102-15:04:05.1234567890123456")[:n]))
+	}
+	for _, s := range []string{"20060102-5:04:05.0000", "20060102-5:04:05.000", "2006012-15:04:05.000", "20060102-15:04:05,000", "20060102-15:04:05.+12",
+		"20060102-15:04:05.-00", "20060102-15:04:05.-01", "20060102-15:04:05.+12345", "20060102-15:04:05.-00000", "20060102-15:04:05.+12345678",
+		"20060102-15:04:05.-00000000", "20060102-15:04:05.1 3", "20060102-15:04:05. 13", "+2006102-15:04:05", "-2006102-15:04:05", "20060102 15:04:05",
+		"20060102T15:04:05", "20060102-15.04.05", "20060102-15:04:5.0000", "20060102-15:4:05.0000", "2006-01-02 15:04:0", "20060102-15:04:05Z",
+		"20060102-15:04:05.000Z", "20060230-00:00:00", "20060431-00:00:00", "20060631-00:00:00", "20060931-00:00:00", "20061131-00:00:00",
+		"20061231-23:59:60", "20160630-23:59:60.000", "20060102-24:00:00", "20060102-23:60:00"} {
+		rd([]byte(s))
+	}
+	// random valid texts and random mutations of them
+	for i := 0; i < c.N; i++ {
+		t := g.randTime()
+		n := tsLens[g.intn(4)]
+		s := []byte(t.Format("20060102-15:04:05.000000000")[:n])
+		k := g.intn(4) // 0: valid, 1..3: that many random mutations
+		for ; k > 0; k-- {
+			s[g.intn(len(s))] = mut[g.intn(len(mut))]
+		}
+		rd(s)
+	}
+	// writes: boundary instants and random instants at each precision (and an undefined precision)
+	wr := func(sec, ns int64, p int) { run(L(Sym("ts-write"), Int64(sec), Int64(ns), Int(p))) }
+	for _, sec := range []int64{0, -1, 1, 86399, 86400, -86400, -86401, 951782400, 951868799, 951868800, 1078012800, 4107542400,
+		-62167219200, -62167219201, 253402300799, 253402300800, -62135596800, -2208988800, 1136214245, 68169600 + 31535999, -30610224000} {
+		for p := 0; p < 4; p++ {
+			for _, ns := range []int64{0, 1, 999, 1000, 999999, 1000000, 123456789, 999999999} {
+				wr(sec, ns, p)
+			}
+		}
+	}
+	for i := 0; i < c.N; i++ {
+		t := g.randTime()
+		p := g.intn(4)
+		if g.intn(20) == 0 {
+			p = 4 + g.intn(3) // not a named precision: written as millis
+		}
+		wr(t.Unix(), int64(t.Nanosecond()), p)
+	}
+	for i := 0; i < c.N/10; i++ {
+		// outside the years 0000..9999 (five-digit / negative years): model comparison only
+		sec := int64(253402300800) + c.Rng.Int63n(86400*365*2000)
+		if g.intn(2) == 0 {
+			sec = int64(-62167219200) - 1 - c.Rng.Int63n(86400*365*2000)
+		}
+		wr(sec, int64(g.intn(1000000000)), g.intn(4))
+	}
+}
+
+func two(v int) string {
+	return string([]byte{byte('0' + v/10%10), byte('0' + v%10)})
+}
+
+// a random instant of the years 0000..9999, biased to month/year ends and to coarse nanoseconds
+func (g *gen) randTime() time.Time {
+	const lo, hi = int64(-62167219200), int64(253402300800)
+	sec := lo + g.c.Rng.Int63n(hi-lo)
+	switch g.intn(6) {
+	case 0:
+		sec = sec - ((sec%86400)+86400)%86400 + 86399 // last second of a day
+	case 1:
+		y := g.intn(10000)
+		sec = time.Date(y, time.Month(2+g.intn(2)), 1, 0, 0, 0, 0, time.UTC).Unix() - int64(g.intn(2)) // around the end of February
+	case 2:
+		y := g.intn(10000)
+		sec = time.Date(y, 1, 1, 0, 0, 0, 0, time.UTC).Unix() - int64(g.intn(2)) // around new year
+	}
+	ns := int64(g.intn(1000000000))
+	switch g.intn(5) {
+	case 0:
+		ns = ns / 1000000 * 1000000
+	case 1:
+		ns = ns / 1000 * 1000
+	case 2:
+		ns = []int64{0, 999999999, 999000000, 999999000, 1, 1000, 1000000}[g.intn(7)]
+	}
+	return time.Unix(sec, ns).UTC()
+}
+
+func (g *gen) floats() {
+	run, c := g.run, g.c
+	rd := func(s []byte) { run(L(Sym("float-read"), Bytes(s))) }
+	floatAlpha := []byte("019" + nearMiss)
+	maxLen := 3
+	if g.thorough() {
+		maxLen = 5
+	}
+	enumStrings(floatAlpha, maxLen, rd)
+	enumStrings([]byte("05.-"), maxLen+2, rd)
+	for _, s := range []string{"inf", "Inf", "+Inf", "-Inf", "infinity", "nan", "NaN", "0x10", "0x1p-2", "0X1P4", "1_0", "1_000.5", "1e5", "1E5", "1e-5", "1.5e+3",
+		"١٢٣", "1.2.3", "1..2", "-1-", "1-2", "--1", "-.", ".", "-", "", "-0", "-0.0", "00.00", "-.5", "5.", "-5.", "0.1", "100", "1.7976931348623157",
+		"0.000000000000000000000000000000000000000000000000001", "123456789012345678901234567890.123456789012345678901234567890"} {
+		rd([]byte(s))
+	}
+	// the float64 overflow threshold 2^1024 - 2^970 and its neighbours, with and without fraction / leading zeros
+	thr := new(big.Int).Sub(new(big.Int).Lsh(big.NewInt(1), 1024), new(big.Int).Lsh(big.NewInt(1), 970))
+	for d := int64(-3); d <= 3; d++ {
+		s := new(big.Int).Add(thr, big.NewInt(d)).String()
+		for _, t := range []string{s, "-" + s, s + ".0", s + ".", "000" + s, s[:len(s)-3] + "." + s[len(s)-3:], s + "0", s + ".99999", "-" + s + ".5"} {
+			rd([]byte(t))
+		}
+	}
+	maxs := new(big.Int).Sub(new(big.Int).Lsh(big.NewInt(1), 1024), new(big.Int).Lsh(big.NewInt(1), 971)).String() // MaxFloat64
+	for _, t := range []string{maxs, maxs + ".9", "-" + maxs, "1" + strings.Repeat("0", 308), "1" + strings.Repeat("0", 309), "2" + strings.Repeat("0", 308),
+		"0." + strings.Repeat("0", 400) + "1", strings.Repeat("9", 308), strings.Repeat("9", 309), strings.Repeat("9", 310), "17976931348623158" + strings.Repeat("0", 292),
+		"17976931348623159" + strings.Repeat("0", 292), "0." + strings.Repeat("9", 350), strings.Repeat("0", 350) + "1", "-" + strings.Repeat("9", 309) + ".5"} {
+		rd([]byte(t))
+	}
+	for i := 0; i < c.N; i++ {
+		// random longer texts: digits with at most a few defects; sometimes very long (overflow region)
+		n := 1 + g.intn(30)
+		if g.intn(10) == 0 {
+			n = 300 + g.intn(20)
+		}
+		s := g.digits(n)
+		if g.intn(2) == 0 {
+			s[g.intn(n)] = '.'
+		}
+		if g.intn(3) == 0 {
+			s[0] = '-'
+		}
+		if g.intn(4) == 0 {
+			s[g.intn(n)] = floatAlpha[g.intn(len(floatAlpha))]
+		}
+		rd(s)
+	}
+	// writes: finite float64 values given by their shortest digits; canonical texts read back
+	wr := func(v float64) {
+		e := strconv.FormatFloat(v, 'e', -1, 64) // d.ddddde±xx
+		neg := e[0] == '-'
+		if neg {
+			e = e[1:]
+		}
+		mant, exps, _ := strings.Cut(e, "e")
+		digs := strings.Replace(mant, ".", "", 1)
+		x, _ := strconv.Atoi(exps)
+		dp := x + 1
+		if v == 0 {
+			digs, dp = "", 0
+		}
+		run(L(Sym("float-write"), Bool(neg), Str(digs), Int(dp)))
+		run(L(Sym("float-canon"), Str(strconv.FormatFloat(v, 'f', -1, 64))))
+	}
+	for _, v := range []float64{0, math.Copysign(0, -1), 1, -1, 0.5, 0.1, 100, 1e21, 1e22, 1e-7, 123.456, math.MaxFloat64, -math.MaxFloat64, math.SmallestNonzeroFloat64,
+		2.2250738585072014e-308, 2.225073858507201e-308, 9007199254740993, 1.7976931348623157e308, 5e-324, 1e300, 123456789.125, 0.000001, 1e-6, 999999.9999999999} {
+		wr(v)
+	}
+	for i := 0; i < c.N; i++ {
+		var v float64
+		switch g.intn(4) {
+		case 0:
+			v = math.Float64frombits(c.Rng.Uint64()) // any exponent
+		case 1:
+			v = float64(c.Rng.Int63n(1000000000)) / 10000 // prices
+		case 2:
+			v = c.Rng.NormFloat64() * math.Pow(10, float64(g.intn(30)-15))
+		default:
+			v = float64(c.Rng.Int63()>>uint(g.intn(63))) * math.Pow(10, -float64(g.intn(10)))
+		}
+		if math.IsNaN(v) || math.IsInf(v, 0) {
+			continue
+		}
+		wr(v)
+	}
+}
+
+func (g *gen) strings() {
+	for _, s := range []string{"", "a", "hello world", "\x00\x01=|", "ünïcode", "8=FIX.4.2\x019=12\x01"} {
+		g.run(L(Sym("str-rt"), Str(s)))
+		g.run(L(Sym("bytes-rt"), Str(s)))
+	}
+	for i := 0; i < g.c.N/4; i++ {
+		b := make([]byte, g.intn(40))
+		g.c.Rng.Read(b)
+		g.run(L(Sym("str-rt"), Bytes(b)))
+		g.run(L(Sym("bytes-rt"), Bytes(b)))
+	}
+}
+
+// a canonical decimal text -?D+(.D+)? with up to ni integer and exactly nf fraction digits
+func (g *gen) decText(ni, nf int) []byte {
+	ip := g.digits(1 + g.intn(ni))
+	if len(ip) > 1 && ip[0] == '0' {
+		ip[0] = byte('1' + g.intn(9))
+	}
+	s := ip
+	if nf > 0 {
+		s = append(append(s, '.'), g.digits(nf)...)
+	}
+	if g.intn(3) == 0 && strings.Trim(string(s), "0.") != "" {
+		s = append([]byte{'-'}, s...)
+	}
+	return s
+}
+
+func (g *gen) decimals() {
+	run, c := g.run, g.c
+	decAlpha := []byte("015" + nearMiss)
+	maxLen := 3
+	if g.thorough() {
+		maxLen = 4
+	}
+	enumStrings(decAlpha, maxLen, func(s []byte) { run(L(Sym("dec-read"), Bytes(s), Int(2))) })
+	for _, s := range []string{"1e5", "1E-5", "1.5e3", "1e", "e5", "1e+", "1e2147483647", "1e2147483648", "1e-2147483648", "1e-2147483649", "1.5e-2147483648", ".-5", "-.5", "+.5", "5.",
+		".", "-", "", "1.2.3", "1..2", "0.5", "0.05", "-0.05", "0.45", "0.55", "-0.45", "-0.55", "2.5", "-2.5", "0.005", "-0.005", "999.995", "-999.995",
+		"123456789012345678", "1234567890123456789", "-1234567890123456789012345678901234567890.12345678901234567890", "0.000", "-0.000", "00012.50", "1_0", "1e1e1", "0x10"} {
+		for _, sc := range []int{0, 1, 2, 3} {
+			run(L(Sym("dec-read"), Str(s), Int(sc)))
+		}
+	}
+	for i := 0; i < c.N; i++ {
+		nf := g.intn(10)
+		s := g.decText(12+g.intn(12), nf)
+		sc := nf // own scale: canonical rewrite
+		if g.intn(2) == 0 {
+			sc = g.intn(10) // any scale 0..9: rounding
+		}
+		if g.intn(12) == 0 {
+			s[g.intn(len(s))] = decAlpha[g.intn(len(decAlpha))]
+		}
+		run(L(Sym("dec-read"), Bytes(s), Int(sc)))
+	}
+	// values that have no canonical text: positive exponents, trailing zeros, negative scales, halves
+	for _, v := range []int64{0, 5, -5, 15, -15, 25, 45, 55, -45, -55, 149, 150, 151, -149, -150, -151, 995, -995, 999999, 1000000} {
+		for _, e := range []int{-4, -3, -2, -1, 0, 1, 3} {
+			for _, sc := range []int{-2, -1, 0, 1, 2, 3, 5} {
+				run(L(Sym("dec-write"), Int64(v), Int(e), Int(sc)))
+			}
+		}
+	}
+	for i := 0; i < c.N; i++ {
+		v := new(big.Int).Rand(c.Rng, new(big.Int).Lsh(big.NewInt(1), uint(1+g.intn(100))))
+		if g.intn(2) == 0 {
+			v.Neg(v)
+		}
+		if g.intn(4) == 0 {
+			// ...5 at the rounding position
+			v.Mul(v, big.NewInt(10)).Add(v, big.NewInt(int64(5*v.Sign())))
+		}
+		run(L(Sym("dec-write"), Sym(v.String()), Int(g.intn(28)-20), Int(g.intn(13)-3)))
+	}
+}
+
+func (g *gen) udecimals() {
+	run, c := g.run, g.c
+	decAlpha := []byte("015" + nearMiss)
+	maxLen := 3
+	if g.thorough() {
+		maxLen = 4
+	}
+	enumStrings(decAlpha, maxLen, func(s []byte) { run(L(Sym("udec-read"), Bytes(s), Int(2))) })
+	for _, s := range []string{"0.5", "0.05", "-0.05", "0.45", "0.55", "-0.999", "2.5", "0.000", "-0.000", "-0", "+1.5", "+0", "00012.50", "1.", ".5", "-.5", "+.5", "1e5",
+		"1.1234567890123456789", "1.12345678901234567890", "340282366920938463463374607431768211455", "340282366920938463463374607431768211456",
+		"-340282366920938463463374607431768211456.5", "34028236692093846346337460743176821145.5", "1234567890123456789", "12345678901234567890",
+		"1234567890.123456789", "12345678901.123456789", "-+1", "+-1", "--1", "1-", "1.2.3", "1..2", "0000000000000000000000000000000000000000000.5",
+		"12345678901234567890123456789012345678901234567890.1234567890123456789", strings.Repeat("9", 200), strings.Repeat("9", 201), "-" + strings.Repeat("9", 199)} {
+		for _, sc := range []int{0, 1, 2, 19, 25} {
+			run(L(Sym("udec-read"), Str(s), Int(sc)))
+		}
+	}
+	for i := 0; i < c.N; i++ {
+		nf := g.intn(20)
+		ni := 12 + g.intn(12)
+		if g.intn(8) == 0 {
+			ni = 30 + g.intn(40) // beyond u128: big.Int path
+		}
+		s := g.decText(ni, nf)
+		sc := nf
+		if g.intn(2) == 0 {
+			sc = g.intn(22)
+		}
+		if g.intn(12) == 0 {
+			s[g.intn(len(s))] = decAlpha[g.intn(len(decAlpha))]
+		}
+		run(L(Sym("udec-read"), Bytes(s), Int(sc)))
+	}
 }
